@@ -84,6 +84,7 @@ class State:
         self.alloc = None      # z3 Int: every ref >= alloc is unallocated
         self.trace = []        # branch decisions, for obligation detail
         self.ghost = {}        # name -> z3 value (ghost sets, logs)
+        self.tags = {}         # id of a pc conjunct -> where it came from (hypothesis slicing)
 
     def copy(self):
         s = State()
@@ -93,16 +94,19 @@ class State:
         s.alloc = self.alloc
         s.trace = list(self.trace)
         s.ghost = dict(self.ghost)
+        s.tags = dict(self.tags)
         return s
 
-    def assume(self, f):
+    def assume(self, f, tag=None):
         # keep conjuncts apart: quantifier-free ones take part in the cheap
         # feasibility checks even when a sibling conjunct is quantified
         if z3.is_and(f):
             for c in f.children():
-                self.assume(c)
+                self.assume(c, tag)
         else:
             self.pc.append(f)
+            if tag is not None:
+                self.tags[f.get_id()] = tag
 
 
 def list_arrays(elem):
